@@ -60,6 +60,16 @@ fn main() {
     std::env::set_var("GIT_CONFIG_NOSYSTEM", "1");
     std::env::set_var("HOME", "/nonexistent-home-for-tcmc");
     std::env::set_var("GIT_TERMINAL_PROMPT", "0");
+    // panics of the code under test are caught and turned into findings; do not flood stderr
+    if std::env::var("TCMC_PANIC_TRACE").is_err() {
+        static SHOWN: std::sync::atomic::AtomicUsize = std::sync::atomic::AtomicUsize::new(0);
+        std::panic::set_hook(Box::new(|info| {
+            if SHOWN.fetch_add(1, std::sync::atomic::Ordering::Relaxed) < 3 {
+                let msg: String = info.to_string().chars().take(300).collect();
+                eprintln!("(panic) {msg}");
+            }
+        }));
+    }
     let code = std::panic::catch_unwind(|| dispatch(&cmd, &opts));
     util::cleanup_scratch();
     match code {
@@ -71,7 +81,7 @@ fn main() {
     }
 }
 
-fn dispatch(cmd: &str, opts: &Opts) -> i32 {
+pub fn dispatch(cmd: &str, opts: &Opts) -> i32 {
     if let Some(p) = &opts.replay {
         return props::replay_file(p);
     }
